@@ -45,7 +45,7 @@ where CL03<CS>: Scheme<PubKey = CL03PublicKey, PrivKey = CL03SecretKey>, CS::Has
     let worlds: Vec<World<CS>> = { let v = std::sync::Mutex::new(Vec::new()); par_for(&[0, 1], |_, _| { let w = World::<CS>::generate(maxn); v.lock().unwrap().push(w); }); v.into_inner().unwrap() };
     let (w, other) = (&worlds[0], &worlds[1]);
     #[derive(Clone)]
-    enum Kind { Flow, Leaf(usize, usize), SignFlip } // Leaf(chunk, nchunks)
+    enum Kind { Flow, Leaf(usize, usize), SignFlip, Shape } // Leaf(chunk, nchunks)
     struct Root { id: String, n: usize, u: Vec<usize>, trusted: bool, kind: Kind }
     let mut roots = Vec::new();
     for n in 1..=maxn { for u in subsets(n) { if u.is_empty() { continue; } for trusted in [false, true] {
@@ -57,6 +57,7 @@ where CL03<CS>: Scheme<PubKey = CL03PublicKey, PrivKey = CL03SecretKey>, CS::Has
     for n in 1..=3usize { for k in 1..=n { classes.push((n, (n - k..n).collect(), false)); } }
     classes.push((2, vec![1], true));
     if !env.thorough() { classes.retain(|c| c.0 <= 2 || c.1.len() == 1); }
+    for (n, u, t) in &classes { roots.push(Root { id: format!("{}/shape-edits/n{}/hidden{:?}/{}", CS::NAME, n, u, if *t { "trusted" } else { "untrusted" }), n: *n, u: u.clone(), trusted: *t, kind: Kind::Shape }); }
     for (n, u, t) in classes { let nch = 8; for ch in 0..nch { roots.push(Root { id: format!("{}/leaf-edits/n{}/hidden{:?}/{}/chunk{}", CS::NAME, n, u, if t { "trusted" } else { "untrusted" }, ch), n, u: u.clone(), trusted: t, kind: Kind::Leaf(ch, nch) }); } }
     roots.push(Root { id: format!("{}/sign-flip/n2/hidden[1]/untrusted", CS::NAME), n: 2, u: vec![1], trusted: false, kind: Kind::SignFlip });
     env.ctx.set_rule("flows: n in 1..=3 (thorough 1..=5) attributes x ALL non-empty hidden-position subsets U x {no trusted party, trusted-party commitment over an own-modulus key}: commit_with_pk(U) -> generate_proof -> verify_proof = true -> blind_sign -> unblind_sign -> verify_multiattr(full vector) = true; per flow every mismatch: commitment to other attributes, EVERY other subset U' as claimed hidden set, other bases, other issuer key, other/missing trusted commitment => verify_proof = false and blind_sign returns no signature (its panic is the documented refusal); update_signature for every revealed position => valid on the updated vector only. Leaf edits: one proof per (n, |U|) class: EVERY integer leaf of the serialized ZKPoK +1 / -1 / zero / +N / swapped with its sibling => issuer refuses; sign flips: every group-element leaf v := N - v, searched over a pool of 32 honest proofs => issuer refuses. State = (flow, edit); non-trivial = the real issuer-side verifier ran.");
@@ -101,6 +102,37 @@ where CL03<CS>: Scheme<PubKey = CL03PublicKey, PrivKey = CL03SecretKey>, CS::Has
                         o => env.ctx.violation("C14:update:failed", &o.describe(), env.case(&r.id, json!({"base": det0, "updated_position": pos}))) }
                     env.ctx.class("update"); env.ctx.trace();
                 }
+                // the revealed attributes given in another order (index list and message list permuted together): same statement
+                if f.revealed_idx.len() >= 2 {
+                    let mut orders: Vec<Vec<usize>> = vec![(0..rm.len()).rev().collect()];
+                    if rm.len() >= 3 { orders.push({ let mut o: Vec<usize> = (0..rm.len()).collect(); o.rotate_left(1); o }); }
+                    for ord in orders {
+                        let ridx: Vec<usize> = ord.iter().map(|&k| f.revealed_idx[k]).collect();
+                        let rmo: Vec<CL03Message> = ord.iter().map(|&k| rm[k].clone()).collect();
+                        env.ctx.state(&[r.id.as_bytes(), format!("revealed-order{:?}", ridx).as_bytes()]);
+                        let deto = json!({"base": det0, "revealed_index_list": ridx});
+                        let issued = mccore::guard_val(|| BlindSignature::<CL03<CS>>::blind_sign(&w.pk, &w.sk, &bases, &f.zkpok, Some(&rmo), f.c.cl03Commitment(), ct, cpk, &r.u, Some(&ridx))); env.ctx.step();
+                        match issued {
+                            O::Ok(bs) => {
+                                let mv = msgs(&m);
+                                expect_bool(env, &r.id, &format!("signature issued with revealed list {:?} verifies on the full vector", ridx), &vcall(|| bs.unblind_sign(&f.c).verify_multiattr(&w.pk, &bases, &mv)), true, false, "complete:revealed-order", deto.clone());
+                                // update the attribute listed first, same (unordered) lists
+                                let pos = ridx[0];
+                                let mut m2 = m.clone(); m2[pos] = m2[pos].clone() ^ Integer::from(1u32 << 9);
+                                let mut rm2 = rmo.clone(); rm2[0] = msg(&m2[pos]);
+                                let upd = mccore::guard_val(|| bs.update_signature(Some(&rm2), f.c.cl03Commitment(), &w.sk, &w.pk, &bases, Some(&ridx)).unblind_sign(&f.c)); env.ctx.step();
+                                match upd { O::Ok(s) => { let (a, b) = (msgs(&m2), msgs(&m));
+                                        expect_bool(env, &r.id, &format!("update with revealed list {:?}: verifies on the updated vector", ridx), &vcall(|| s.verify_multiattr(&w.pk, &bases, &a)), true, false, "update:revealed-order:new-vector", deto.clone());
+                                        expect_bool(env, &r.id, &format!("update with revealed list {:?}: must not verify on the old vector", ridx), &vcall(|| s.verify_multiattr(&w.pk, &bases, &b)), false, true, "update:revealed-order:old-vector", deto.clone());
+                                        let mut sw = m2.clone(); sw.swap(ridx[0], ridx[1]);
+                                        if sw != m2 { expect_bool(env, &r.id, &format!("update with revealed list {:?}: must not verify with two revealed values swapped", ridx), &vcall(|| s.verify_multiattr(&w.pk, &bases, &msgs(&sw))), false, true, "update:revealed-order:swapped-vector", deto.clone()); } }
+                                    o => env.ctx.violation("C14:update:revealed-order:failed", &o.describe(), env.case(&r.id, deto.clone())) }
+                            }
+                            o => env.ctx.violation("C14:complete:revealed-order:refused", &format!("issuer refused an honest request whose revealed attributes are listed as {:?}: {}", ridx, o.describe()), env.case(&r.id, deto.clone())),
+                        }
+                        env.ctx.class("revealed-order"); env.ctx.trace();
+                    }
+                }
                 // statement mismatches: the issuer must refuse (verify_proof false / panic; blind_sign returns nothing)
                 let mut refuse = |name: String, cls: &str, zk: &ZKPoK<CL03<CS>>, c: &CL03Commitment, ct2: Option<&CL03Commitment>, pk: &CL03PublicKey, sk: &CL03SecretKey, b: &Bases, cpk2: Option<&CL03CommitmentPublicKey>, u2: &[usize]| {
                     if !env.ctx.state(&[r.id.as_bytes(), name.as_bytes()]) { return; }
@@ -141,6 +173,21 @@ where CL03<CS>: Scheme<PubKey = CL03PublicKey, PrivKey = CL03SecretKey>, CS::Has
                 let pool: Vec<Value> = flows.iter().map(|x| to_json(&x.zkpok)).collect();
                 let res = sign_flip_search(&pool, &w.pk.N, &|k, x| match from_json::<ZKPoK<CL03<CS>>>(x) { Some(z) => issuer_verifies::<CS>(&z, flows[k].c.cl03Commitment(), None, &w.pk, &bases, None, &r.u), None => O::Ok(false) });
                 report_sign_flips(env, &r.id, "issuance proof", &res, pool.len(), det0.clone());
+            }
+            Kind::Shape => {
+                let j = to_json(&f.zkpok);
+                let rm: Vec<CL03Message> = f.revealed_idx.iter().map(|&i| msg(&m[i])).collect();
+                for (name, x) in array_shape_edits(&j) {
+                    if !env.ctx.state(&[r.id.as_bytes(), name.as_bytes()]) { continue; }
+                    let zk2: Option<ZKPoK<CL03<CS>>> = from_json(&x);
+                    let got = match &zk2 { Some(z) => issuer_verifies::<CS>(z, f.c.cl03Commitment(), ct, &w.pk, &bases, cpk, &r.u), None => O::Ok(false) };
+                    expect_bool(env, &r.id, &format!("verify_proof after shape edit [{}]", name), &got, false, true, "shape-edit", json!({"base": det0, "edit": name}));
+                    if let Some(z) = &zk2 {
+                        let bs = mccore::guard_val(|| BlindSignature::<CL03<CS>>::blind_sign(&w.pk, &w.sk, &bases, z, if rm.is_empty() { None } else { Some(&rm) }, f.c.cl03Commitment(), ct, cpk, &r.u, if rm.is_empty() { None } else { Some(&f.revealed_idx) })); env.ctx.step();
+                        if bs.is_ok() { env.ctx.violation("C14:gate:shape-edit:signed", &format!("blind_sign issued a signature for a proof with [{}]", name), env.case(&r.id, json!({"base": det0, "edit": name}))); }
+                    }
+                    env.ctx.class(&format!("shape:{}", match got { O::Ok(false) => "rejected", O::Ok(true) => "accepted", _ => "refused-by-panic" })); env.ctx.trace();
+                }
             }
             Kind::Leaf(ch, nch) => {
                 let j = to_json(&f.zkpok);
